@@ -166,9 +166,10 @@ def _backend_worker(args):
                 else:
                     a1 = lib.crypto_sign_verify_detached(s2, m2, ctypes.c_ulonglong(len(m2)), p2) == 0
                     a2 = lib.crypto_sign_open(out, ctypes.byref(ull), s2 + m2, ctypes.c_ulonglong(64 + len(m2)), p2) == 0
-                    accs = [a1, a2]; acc = a1 or a2
-                    if a1 != a2:
-                        fails.append(("crypto_sign-forms-disagree/%s/base=%d/%s" % (tag, bi, label), "verify_detached=%s open=%s" % (a1, a2)))
+                    a3 = lib.crypto_sign_open(None, None, s2 + m2, ctypes.c_ulonglong(64 + len(m2)), p2) == 0      # verify-only call form (m == NULL)
+                    accs = [a1, a2, a3]; acc = a1 or a2 or a3
+                    if not (a1 == a2 == a3):
+                        fails.append(("crypto_sign-forms-disagree/%s/base=%d/%s" % (tag, bi, label), "verify_detached=%s open=%s open(m=NULL)=%s" % (a1, a2, a3)))
                 key = "%s/base=%d/%s/%s" % (tag, bi, "ph" if ph else "pure", label)
                 if label == "honest":
                     if not all(accs): fails.append(("crypto_sign_verify/honest-rejected/" + key, "honest signature rejected"))
